@@ -22,7 +22,7 @@ import (
 	"golang.org/x/tools/go/packages"
 )
 
-const pkPath = core.ModPath + "/net/packet"
+var pkPath = core.ModPath + "/net/packet"
 
 type sigPath []string
 
